@@ -247,6 +247,48 @@ def rule_epochs(ctx, facts, rule):
                 continue
         ctx.check(bool(sites) and bool(e) and fn.guarded(sites, e), rule, fn.path, fn.span,
                   "SpanLine::%s acts only for a handle of its own epoch (stale handles are ignored)" % name, "", "sites %s unguarded" % sites, extra="epoch")
+        if name == "finish_span" and sites:
+            # ... and for every such handle: a well-nested close is never ignored (nothing but a foreign epoch -- or a scope that never
+            # records -- keeps the close from reaching the queue; a close skipped because the queue happens to be full leaves the closed
+            # span as the scope's innermost parent)
+            from .core import inline_calls, bool_cond_edges
+            view = inline_calls(facts, fn, lambda g: g.path.startswith(LINE) or re.search(r"span_queue::SpanQueue::(is_|len|capacity)", g.path), depth=2)
+            pv = Prov(facts)
+            ne = equal_edges(view, pv, lambda o: (bool(o.path) and o.path[-1] in (".epoch", ".span_line_epoch")) or
+                             (o.kind == "param" and o.key == 2 and o.path == ()), equal=False)
+            ns = bool_cond_edges(view, pv, lambda o: o.path[-1:] == (".is_sampled",) and not any(v[0] in ("binop", "call") for v in o.via), False)
+            vs = [b for b in view.calls(lambda t: t["callee"] == callee) if not view.blocks[b]["cleanup"]]
+            # a helper's answer merged into one bool (`_0 = false` on one path, `_0 = a == b` on another): crossing its false edge is an
+            # accepted reason only if every constant that can reach it was assigned behind an accepted edge
+            cand = set(ne) | set(ns)
+
+            def const_defs(b):
+                d = view.blocks[b]["term"]["discr"]
+                out, seen, todo = [], set(), [d["l"]] if d["k"] in ("copy", "move") and not d["p"] else []
+                while todo:
+                    l = todo.pop()
+                    if l in seen:
+                        continue
+                    seen.add(l)
+                    for (bi, i, st) in view.defs(l):
+                        if i == "term" or st["k"] != "assign":
+                            continue
+                        rv = st["rv"]
+                        if rv["k"] == "use" and rv["op"]["k"] == "const":
+                            out.append(bi)
+                        elif rv["k"] == "use" and rv["op"]["k"] in ("copy", "move") and not rv["op"]["p"]:
+                            todo.append(rv["op"]["l"])
+                        elif rv["k"] == "unop" and isinstance(rv.get("a"), dict) and rv["a"]["k"] in ("copy", "move") and not rv["a"]["p"]:
+                            todo.append(rv["a"]["l"])
+                return out
+            plain = {e for e in cand if not const_defs(e[0])}
+            acc = set(plain)
+            for e in cand - plain:
+                if all(view.guarded([cb], plain) for cb in const_defs(e[0])):
+                    acc.add(e)
+            okc, wit = view.must_pass([0], vs, avoid_edges=acc) if vs else (False, None)
+            ctx.check(okc, rule, fn.path, fn.span, "SpanLine::finish_span closes the span for every handle of its own epoch (no other condition)", "",
+                      "a path with a matching epoch returns (bb%s) without SpanQueue::finish_span" % wit, extra="epoch-always")
 
 
 def rule_inert_without_scope(ctx, facts, rule):
